@@ -118,6 +118,20 @@ func newLogin(px *proxy.Proxy, name string) *proxy.VerifLogin {
 		false, version.Minecraft_1_20_2.Protocol)
 }
 
+// sortServersResult sorts a Servers() result in place, like the builtin commands do.
+func sortServersResult(l []proxy.RegisteredServer) {
+	sort.Slice(l, func(i, j int) bool { return l[i].ServerInfo().Name() < l[j].ServerInfo().Name() })
+}
+
+// walkServersResult reads the names of a Servers() result.
+func walkServersResult(l []proxy.RegisteredServer) []string {
+	out := []string{}
+	for _, sv := range l {
+		out = append(out, sv.ServerInfo().Name())
+	}
+	return out
+}
+
 // dupLogin is another connection claiming the identity of element k.
 func dupLogin(px *proxy.Proxy, k string) *proxy.VerifLogin {
 	return proxy.VerifNewLogin(px, newNullConn("dup-"+k), &profile.GameProfile{ID: idOf(k), Name: "P" + k},
@@ -286,7 +300,9 @@ func (r *runner) run(n int, s schedule) {
 			r.tw.Emit(tracefmt.Rec{"ev": "r.call", "t": t, "api": k})
 			rec := tracefmt.Rec{"ev": "r.ret", "t": t, "api": k}
 			// the same caller asks for the count right after a listing
-			second := map[string]string{"players.list": "players.count", "sp.range": "sp.len"}[k]
+			second := map[string]string{"players.list": "players.count", "sp.range": "sp.len",
+				"servers.list": "servers.list"}[k]
+			var own []proxy.RegisteredServer // the first Servers() result: the caller's own slice
 			switch k {
 			case "players.list":
 				l := []string{}
@@ -307,7 +323,8 @@ func (r *runner) run(n int, s schedule) {
 				rec["closed"] = l
 			case "servers.list":
 				l := []string{}
-				for _, sv := range px.Servers() {
+				own = px.Servers()
+				for _, sv := range own {
 					l = append(l, sv.ServerInfo().Name())
 				}
 				rec["list"] = l
@@ -321,7 +338,17 @@ func (r *runner) run(n int, s schedule) {
 				rec["count"] = rs.Players().Len()
 			}
 			r.tw.Emit(rec)
-			if second != "" {
+			if second == "servers.list" {
+				// a second lister; meanwhile the first caller sorts its own result (as /server
+				// and /glist do) and filters it in place: that must not show in anybody else's list
+				r.tw.Emit(tracefmt.Rec{"ev": "r.call", "t": t, "api": second})
+				other := px.Servers()
+				sortServersResult(own)
+				if len(own) > 1 {
+					copy(own, own[1:])
+				}
+				r.tw.Emit(tracefmt.Rec{"ev": "r.ret", "t": t, "api": second, "list": walkServersResult(other)})
+			} else if second != "" {
 				r.tw.Emit(tracefmt.Rec{"ev": "r.call", "t": t, "api": second})
 				n := 0
 				if second == "players.count" {
@@ -515,6 +542,26 @@ func TestRace(t *testing.T) {
 				}
 			}
 		}()
+		// one caller sorts the list of servers it got (as /server and /glist do), another walks its own
+		for g := 0; g < 2; g++ {
+			g := g
+			wg.Add(1)
+			go func() {
+				defer wg.Done()
+				for j := 0; j < 30 && !stop.Load(); j++ {
+					if g == 0 {
+						sortServersResult(px.Servers())
+						count("Servers+sort")
+					} else {
+						_ = walkServersResult(px.Servers())
+						count("Servers+walk")
+					}
+					if j%4 == 3 {
+						runtime.Gosched()
+					}
+				}
+			}()
+		}
 		// listing calls from several goroutines
 		for g := 0; g < 3; g++ {
 			g := g
